@@ -328,10 +328,11 @@ Definition put (r : router) (k : str) (v : tdata) : router :=
   match classify k with
   | KEmb =>
       let '(r1, id) := get_or_create r k in
+      let stale := if gen_put_drops_stale_vector then with_emb r1 (adel (r_emb r1) id) else r1 in
       let r2 := match sget v s_embedding with
                 | Some (TVec vec) =>
-                    if N.of_nat (length vec) =? r_dim r then with_emb r1 (aset (r_emb r1) id vec) else r1
-                | _ => r1
+                    if N.of_nat (length vec) =? r_dim r then with_emb r1 (aset (r_emb r1) id vec) else stale
+                | _ => stale
                 end in
       with_meta r2 (sset (r_meta r2) k v)
   | KCache => with_cache r (sset (r_cache r) k v)
